@@ -445,7 +445,7 @@ class Handle:
     pass
 
 
-def start(ctx, info, seed_salt=14, tier=None, only=None):
+def start(ctx, info, seed_salt=14, tier=None, only=None, model=True):
     """generate the groups and run harness + model in a background thread (the two slow behaviours take 5 s of wall
     clock; the direct-mode layer runs meanwhile)"""
     h = Handle()
@@ -477,11 +477,13 @@ def start(ctx, info, seed_salt=14, tier=None, only=None):
                 bodies.append(coq_group(g, o, mp))
                 h.todo.append((gi, g, o, mp))
             h.results = C.coq_eval_shards(ctx, "c14proxy%d" % seed_salt, bodies) if bodies and h.model else []
+            if not h.model:
+                h.todo = []
             h.t_model = _time.time()
         except Exception as e:      # reported by finish()
             h.error = "c14proxy worker: %r" % (e,)
 
-    h.model = True
+    h.model = model
     h.thread = threading.Thread(target=work, daemon=True)
     h.thread.start()
     return h
